@@ -224,11 +224,14 @@ Definition run_g (body : bytes) : bytes * bytes :=
 
 Definition ounwrap (o : option N) : N := match o with Some v => v | None => 0 end.
 
-Fixpoint run_m_go (o : opts) (path_m : bool) (r : option row) (ms : list bytes) (acc : list bytes)
+Definition dump_compact (r : row) : bytes :=
+  str "trk=" ++ oN (track r) ++ str " gs=" ++ oN (grspeed r) ++ str " vr=" ++ oZ (vrate r).
+
+Fixpoint run_m_go (o : opts) (compact path_m : bool) (r : option row) (ms : list bytes) (acc : list bytes)
   : bool * list bytes :=
   match ms with
   | [] => (true, rev_append acc [])
-  | [] :: rest => run_m_go o path_m r rest acc
+  | [] :: rest => run_m_go o compact path_m r rest acc
   | hm :: rest =>
       let m := map hexv hm in
       let step : res (option row) :=
@@ -253,15 +256,16 @@ Fixpoint run_m_go (o : opts) (path_m : bool) (r : option row) (ms : list bytes) 
           end in
       match step with
       | Panic _ => (false, rev_append acc [])
-      | Ok None => run_m_go o path_m r rest acc
-      | Ok (Some r') => run_m_go o path_m (Some r') rest (dump_row 0 r' :: acc)
+      | Ok None => run_m_go o compact path_m r rest acc
+      | Ok (Some r') => run_m_go o compact path_m (Some r') rest ((if compact then dump_compact r' else dump_row 0 r') :: acc)
       end
   end.
 
 Definition run_m (o : opts) (body : bytes) : bytes * bytes :=
   match split_on 58 body [] with
   | p :: rest :: _ =>
-      let '(ok, ds) := run_m_go o (match p with [109] => true | _ => false end) None (split 44 rest) [] in
+      let '(compact, p) := match p with 118 :: t => (true, t) | _ => (false, p) end in
+      let '(ok, ds) := run_m_go o compact (match p with [109] => true | _ => false end) None (split 44 rest) [] in
       (if ok then str "ok" else str "panic", if ok then join [35] ds else [])
   | _ => (str "skip", [])
   end.
